@@ -40,6 +40,9 @@ type Encoder struct {
 	noRead      []noReadLoc                  // read frame of the function under contract
 	defs        map[string]string            // defined name -> term (for store-to-load forwarding)
 	parts       map[string][]string          // constructor term -> field terms
+	localCells  map[string][]string          // cell component -> refs of private local-variable cells
+	inLoopHavoc bool
+	cellAlloc   map[string]*ssa.Alloc // ref term of a private local cell -> its Alloc
 }
 
 type encErr struct{ msg string }
@@ -211,8 +214,19 @@ func (e *Encoder) havocComp(st *State, name string) {
 	if _, ok := e.compSort[name]; !ok {
 		return
 	}
-	e.comp(st, name, "")
-	st.heap[name] = e.declare(name, e.compSort[name])
+	old := e.comp(st, name, "")
+	nv := e.declare(name, e.compSort[name])
+	// cells of local variables (Alloc'd by the functions being encoded, e.g. variables captured by a closure) are
+	// not reachable from a callee's arguments: a havoc by a call or a loop of *other* code leaves them alone.
+	// (The loop havoc re-establishes them through this same rule only for cells the loop does not write: see localCells.)
+	if refs := e.localCells[name]; len(refs) > 0 && !e.inLoopHavoc {
+		t := nv
+		for _, r := range refs {
+			t = store(t, r, sel(old, r))
+		}
+		nv = e.define(name, e.compSort[name], t)
+	}
+	st.heap[name] = nv
 }
 
 func arrSort(elem string) string  { return "(Array Int " + elem + ")" }
@@ -245,7 +259,7 @@ func (e *Encoder) ptrLoc(v *Value) *Loc {
 		e.fail("ptrLoc of non-pointer %v (%v)", v, v.Type)
 	}
 	el := p.Elem()
-	if _, isS := el.Underlying().(*types.Struct); isS {
+	if _, isS := el.Underlying().(*types.Struct); isS && !isTimeTime(el) {
 		// pointer to a whole struct object: pseudo-location with empty component (fields addressed individually)
 		return &Loc{Comp: "", Idx: []string{v.T}, Type: el, Root: el}
 	}
